@@ -432,3 +432,23 @@ def diploid_three_tree():
 
 
 S3["diploid_three_tree"] = diploid_three_tree
+
+
+def dead_branch():
+    """cat3 in which sample 1's only edge stops at 5: on [5,10) node 1 is isolated and node 3 is
+    unary, at a breakpoint where an edge is removed and none is inserted."""
+    return _ts(10, [(1, 0)] * 3 + [(0, 1), (0, 2)],
+               [(0, 10, 3, 0), (0, 5, 3, 1), (0, 10, 4, 2), (0, 10, 4, 3)],
+               [1, 4, 7], [(0, 0), (1, 3), (2, 2)])
+
+
+def dead_branch_mid():
+    """as dead_branch but a later insertion elsewhere follows the removal-only breakpoint."""
+    return _ts(10, [(1, 0)] * 4 + [(0, 1), (0, 2), (0, 3)],
+               [(0, 10, 4, 0), (0, 4, 4, 1), (0, 10, 5, 2), (0, 10, 5, 4),
+                (0, 7, 6, 3), (7, 10, 5, 3), (0, 7, 6, 5)],
+               [1, 5, 8], [(0, 0), (1, 4), (2, 2)])
+
+
+S2_UNARY["dead_branch"] = dead_branch
+S2_UNARY["dead_branch_mid"] = dead_branch_mid
